@@ -301,8 +301,15 @@ def _const_flag_set_block(f, cond, truth, src):
                 if nm != name:
                     continue
                 v = ex.const(f, rhs) if (rhs is not None and op == "=") else None
+                if v is None and rhs is not None and op == "=" and ex.is_null(f, rhs):
+                    v = 0
                 if v is None:
-                    ok = False
+                    # `victim = cn`: a value that may or may not be zero; with every other store a zero, finding the
+                    # variable non-zero still means this store was executed
+                    if op == "=" and rhs is not None:
+                        sets.append(bid)
+                    else:
+                        ok = False
                 elif v != 0:
                     sets.append(bid)
         taken = any(x["k"] == "un" and x["op"] == "&" and f.exprs[ex.skip(f, x["c"][0])]["k"] == "ref"
